@@ -11,6 +11,13 @@
     c16.count N                       → I<n> | E<code>
     c16.while N k|-                   WHILE IN, BREAK in the k-th iteration        → rows <n> tok… | E<code>
     c16.dml                           a data-changing statement                    → ok
+    c16.loop N fuel item ; item ; …   WHILE … IN N with a body; item = a statement as above without the
+                                      `c16.` prefix, or `{ g stmt , stmt , … }` (child block: g = k runs in
+                                      iteration k only — IF @n = k —, g = * always — IF TRUE / function call)
+                                      → trace `res | res | …` (row handed to the body, results of the body's
+                                        statements, …, final none / E<code>)
+    c16.nest N fuel pre , … ;; item ; … ;; post , …   IF TRUE THEN pre…; WHILE … IN N … END WHILE; post… END IF → trace
+    c16.block stmt , stmt , …         IF TRUE THEN … END IF at top level            → trace
 -/
 import Csvq.Model.Cursor
 namespace Csvq.Drive
@@ -50,6 +57,60 @@ def parseC16 (cmd : String) (args : List String) : Option (Op String) :=
   | "dml", [] => some .dml
   | _, _ => none
 
+def splitBy (sep : String) (l : List String) : List (List String) :=
+  let r := l.foldl (fun (acc : List (List String) × List String) t =>
+    if t = sep then (acc.2.reverse :: acc.1, []) else (acc.1, t :: acc.2)) ([], [])
+  (r.2.reverse :: r.1).reverse
+
+def parseStmt : List String → Option (Op String)
+  | cmd :: args => parseC16 cmd args
+  | [] => none
+
+def parseItem (toks : List String) : Option (Item String) :=
+  match toks with
+  | "{" :: g :: rest =>
+    match rest.reverse with
+    | "}" :: innerRev =>
+      let groups := (splitBy "," innerRev.reverse).filter (fun x => !x.isEmpty)
+      match groups.mapM parseStmt with
+      | some ops =>
+        if g = "*" then some (.sub none ops) else g.toNat?.map fun k => .sub (some k) ops
+      | none => none
+    | _ => none
+  | _ => (parseStmt toks).map .act
+
+def showTrace (rs : List (Res String)) (ended : Bool) : String :=
+  String.intercalate " | " (rs.map showRes ++ (if ended then [] else ["FUEL"]))
+
+/-- the structured commands: new top-level scope and the answer line -/
+def structured (s : Scope String) (cmd : String) (args0 : List String) : Option (Scope String × String) :=
+  let args := args0.filter (fun t => t ≠ "")
+  match cmd, args with
+  | "loop", name :: fuel :: rest =>
+    match fuel.toNat?, ((splitBy ";" rest).filter (fun x => !x.isEmpty)).mapM parseItem with
+    | some fuel, some body =>
+      let r := loopS fuel 1 name body [s]
+      some (r.1.headD [], showTrace r.2.1 r.2.2)
+    | _, _ => none
+  | "nest", name :: fuel :: rest =>
+    match splitBy ";;" rest with
+    | [pre, items, post] =>
+      match fuel.toNat?, ((splitBy "," pre).filter (fun x => !x.isEmpty)).mapM parseStmt,
+          ((splitBy ";" items).filter (fun x => !x.isEmpty)).mapM parseItem,
+          ((splitBy "," post).filter (fun x => !x.isEmpty)).mapM parseStmt with
+      | some fuel, some pre, some body, some post =>
+        let r := nestS fuel pre name body post [s]
+        some (r.1.headD [], showTrace r.2.1 r.2.2)
+      | _, _, _, _ => none
+    | _ => none
+  | "block", rest =>
+    match ((splitBy "," rest).filter (fun x => !x.isEmpty)).mapM parseStmt with
+    | some ops =>
+      let r := runItem 0 [s] (.sub none ops)
+      some (r.1.headD [], showTrace r.2.1 true)
+    | none => none
+  | _, _ => none
+
 partial def c16Loop (h out : IO.FS.Stream) (s : Scope String) : IO Unit := do
   let line ← h.getLine
   if line.isEmpty then return ()
@@ -61,6 +122,15 @@ partial def c16Loop (h out : IO.FS.Stream) (s : Scope String) : IO Unit := do
       out.putStrLn "ok"
       c16Loop h out []
     | [_, cmd] =>
+      if cmd = "loop" || cmd = "block" || cmd = "nest" then
+        match structured s cmd args with
+        | some (s', line) =>
+          out.putStrLn line
+          c16Loop h out s'
+        | none =>
+          out.putStrLn "bad-op"
+          c16Loop h out s
+      else
       match parseC16 cmd args with
       | some op =>
         let r := step s op
